@@ -176,8 +176,8 @@ fn run(case: &Case09, with_upgrades: bool, sliced: bool, out: &mut Outcome) -> O
                 if before.utxos_length != after.utxos_length {
                     // finding F6: the per-block UTXO deltas of the unstable blocks are not
                     // serialised and default to 0 after the upgrade
-                    let lost = before.utxos_length as i64 - after.utxos_length as i64;
-                    if lost == want_delta {
+                    // (the reported value is clamped at 0)
+                    if before.utxos_length as i64 == (after.utxos_length as i64 + want_delta).max(0) {
                         out.known("F6-utxos-length-after-upgrade", format!("event {i}: get_blockchain_info().utxos_length dropped from {} to {} across the upgrade (= the unstable blocks' contribution {want_delta})", before.utxos_length, after.utxos_length));
                     } else {
                         out.fail(format!("event {i}: get_blockchain_info().utxos_length changed from {} to {} across the upgrade (unstable contribution {want_delta})", before.utxos_length, after.utxos_length));
@@ -286,8 +286,8 @@ impl Property for C09 {
     }
     fn cases(&self, tier: Tier) -> u32 {
         match tier {
-            Tier::Quick => 500,
-            Tier::Thorough => 8000,
+            Tier::Quick => 1_200,
+            Tier::Thorough => 12_000,
         }
     }
     fn rule(&self) -> String {
